@@ -19,9 +19,52 @@ fn expected_line(cps: &J, unit: usize) -> String {
     s
 }
 
+/// a reader that hands its bytes out in reads of at most `chunk` bytes and fails the `fault`-th read call once with ErrorKind::Interrupted
+/// (a signal arriving during read(2)): the standard contract is that such a read is simply retried
+struct FaultyReader { data: Vec<u8>, pos: usize, chunk: usize, calls: usize, fault: Option<usize> }
+impl std::io::Read for FaultyReader {
+    fn read(&mut self, buf: &mut [u8]) -> std::io::Result<usize> {
+        let call = self.calls; self.calls += 1;
+        if Some(call) == self.fault { return Err(std::io::Error::new(std::io::ErrorKind::Interrupted, "interrupted")); }
+        let n = std::cmp::min(std::cmp::min(self.chunk, buf.len()), self.data.len() - self.pos);
+        buf[..n].copy_from_slice(&self.data[self.pos..self.pos + n]);
+        self.pos += n;
+        Ok(n)
+    }
+}
+
+/// lossy_lines (the line reader of the batch driver and of the join loader) over short and interrupted reads: the lines are those of the bytes
+fn faulty_runs(bytes: &[u8], exp: &[String]) -> Option<J> {
+    for cap in [1usize, 2, 3, 8] {
+        for chunk in [1usize, 2, 64] {
+            let total_calls = bytes.len() / std::cmp::min(chunk, cap).max(1) + 3;
+            let mut faults: Vec<Option<usize>> = vec![None];
+            faults.extend((0..total_calls).map(Some));
+            for fault in faults {
+                let r = FaultyReader { data: bytes.to_vec(), pos: 0, chunk, calls: 0, fault };
+                let got: Vec<Result<String, String>> = std::panic::catch_unwind(std::panic::AssertUnwindSafe(|| {
+                    sqlgrep::helpers::lossy_lines(std::io::BufReader::with_capacity(cap, r)).map(|l| l.map_err(|e| format!("{:?}", e.kind()))).collect()
+                })).unwrap_or_else(|_| vec![Err("panic".to_string())]);
+                let ok = got.len() == exp.len() && got.iter().zip(exp.iter()).all(|(g, e)| g.as_ref().ok() == Some(e));
+                if !ok { return Some(json!({"capacity": cap, "read_chunk": chunk, "interrupted_read_call": fault, "lines": got.iter().map(|g| format!("{:?}", g)).collect::<Vec<_>>()})); }
+            }
+        }
+    }
+    None
+}
+
 pub fn replay(cases: &[J]) -> J {
     let dir = scratch();
     let mut rep = Report::new("reader");
+    // a file whose size is reported as 0 although it has content (procfs): its lines still reach the query
+    if let Ok(text) = std::fs::read_to_string("/proc/version") {
+        let tables0 = setup_tables("CREATE TABLE t('(.*)' => x TEXT);").unwrap();
+        let obs = run_batch(&tables0, "SELECT x FROM t", &[std::path::PathBuf::from("/proc/version")], &json!({"at": "none", "n": 0}), OutputFormat::Json);
+        let got: Vec<String> = obs.records.iter().map(|r| r["x"].as_str().unwrap_or("").to_string()).collect();
+        let exp: Vec<String> = text.lines().map(|l| l.to_string()).collect();
+        if got != exp { rep.mismatch(&json!({"files": ["/proc/version"], "note": "size 0 in metadata, content when read"}), json!({"lines": exp}), json!({"lines": got, "status": obs.status}), "a file of reported size 0 with content lost its lines"); }
+        else { rep.count("procfs_file_read"); }
+    }
     let tables = setup_tables("CREATE TABLE t('(.*)' => x TEXT);\nCREATE TABLE u('(.*)' => y TEXT);").unwrap();
     let none = json!({"at": "none", "n": 0});
     for (ci, case) in cases.iter().enumerate() {
@@ -52,6 +95,14 @@ pub fn replay(cases: &[J]) -> J {
             let observed = json!({"lines": short(&got), "status": obs.status, "total_lines": obs.consumed, "count": n, "join_pairs": jn, "unit": unit});
             let expected = json!({"lines": short(&exp), "status": "ok", "total_lines": exp.len(), "count": exp.len(), "join_pairs": exp_jn, "unit": unit});
             let lost = case["lost"].as_bool().unwrap();
+            // the same bytes through the public line reader over short reads and one interrupted read (single file, short contents)
+            if unit == 1 && paths.len() == 1 {
+                if let Some(bad) = faulty_runs(&bytes_of(&case["files"][0]), &exp) {
+                    rep.mismatch(case, json!({"lines": short(&exp)}), bad, "lossy_lines over short / interrupted reads differs from Reader.tla");
+                    continue;
+                }
+                rep.count("faulty_reader_runs");
+            }
             if got == exp && obs.status == "ok" && obs.consumed as usize == exp.len() && n as usize == exp.len() && cnt.status == "ok" && jn == exp_jn {
                 if lost { rep.dev_witness("InvalidUtf8EndsFile", case); rep.count("dev_InvalidUtf8EndsFile"); }
                 rep.ok(case, format!("{}|{}", case["files"], unit), !exp.is_empty());
